@@ -103,6 +103,9 @@ func (r *Rand) Bytes(n int) []byte {
 	return b
 }
 
+// Read makes a Rand an io.Reader of PRNG bytes (for crypto APIs that take a random source).
+func (r *Rand) Read(p []byte) (int, error) { r.Fill(p); return len(p), nil }
+
 func (r *Rand) Fill(b []byte) {
 	i := 0
 	for ; i+8 <= len(b); i += 8 {
